@@ -253,6 +253,30 @@ def _c15():
             "keys": [cp(k) for k in ["redirect_to", "redirect", "target", "redir", "next", "link", "orig", "goto", "url", "l", "u", "q"]]}
 
 
+# ---------------------------------------------------------------- C16: is_url grammar and text elements
+def _h(text, kind, last=""):
+    # kind: d(omain) / s(pecial: IPv4, localhost) / b(ad); last = last label (lower case) of a domain
+    return {"t": cp(text), "k": kind, "last": last}
+
+
+C16 = {
+    # p: text; kind: n(one) h(ttp/https) o(ther protocol) r(elative //) b(roken)
+    "protos": [{"t": cp(t), "k": k} for t, k in [("", "n"), ("http://", "h"), ("https://", "h"), ("HTTP://", "h"), ("ftp://", "o"), ("//", "r"),
+                                                   ("custom://", "o"), ("http:/", "b"), ("http:", "b"), ("://", "b")]],
+    "userinfo": [cp(x) for x in ["", "user@", "user:pw@"]],
+    "hosts": [_h("lemonde.fr", "d", "fr"), _h("www.lemonde.co.uk", "d", "uk"), _h("example.zzzz", "d", "zzzz"), _h("localhost", "s"), _h("192.168.0.1", "s"),
+              _h("256.1.1.1", "b"), _h("exämple.de", "d", "de"), _h("a_b.com", "d", "com"), _h("-a.com", "b"), _h("a-.com", "b"), _h("a.com.", "d", "com"),
+              _h("com", "b"), _h("a..com", "b"), _h("a.c", "b"), _h("xn--caf-dma.fr", "d", "fr"), _h("lemonde.fr2", "b"), _h("LEMONDE.FR", "d", "fr"),
+              _h("sub.example.museum", "d", "museum")],
+    "ports": [cp(x) for x in ["", ":80", ":8080", ":1", ":123456", ":"]],
+    # s: contains a space
+    "paths": [{"t": cp(t), "s": sp} for t, sp in [("", False), ("/", False), ("/a/b?q=1#f", False), ("/a b", True), ("?q=a b", True), ("#é", False), ("/a\tb", True)]],
+    "pads": [cp(""), cp(" "), cp("\t\n")],
+    "elements": [cp(x) for x in ["hello", "voir", "(", ")", ",", ".", "…", "«", "»", " ", "\n", "[", "](", "!", "http://lemonde.fr/a", "https://www.example.com/path?q=1)",
+                                  "lemonde.fr", "www.example.com/x", "http://a.com/](", "foo", "[http://a.com](http://b.com)", "HTTP://C.COM.", "ftp://d.org/x,"]],
+}
+
+
 def main():
     d = os.path.join(ROOT, "spec", "data")
     os.makedirs(d, exist_ok=True)
@@ -264,6 +288,8 @@ def main():
     sys.path.insert(0, "/repo")
     from ural.data import ISO_3166_1_COUNTRIES_ALPHA_2  # data the property is stated over, not logic
     NORM["countries"] = [cp(c.lower()) for c in sorted(ISO_3166_1_COUNTRIES_ALPHA_2)]
+    with open(os.path.join(d, "c16.json"), "w") as f:
+        json.dump(C16, f, separators=(",", ":"))
     with open(os.path.join(d, "c15.json"), "w") as f:
         json.dump(_c15(), f, separators=(",", ":"))
     with open(os.path.join(d, "c20.json"), "w") as f:
